@@ -695,6 +695,50 @@ def run():
         c = ts_kc_case(rng)
         if c:
             cases.append(c)
+    # sample counts beyond what TLC can hold (harness-evaluated against closed forms): a two-level star with n leaves, site j mutated on a
+    # clade of p_j leaves; diversity = sum 2 p (n - p) / (n (n - 1)), segregating sites = number of sites, Tajima's D by its formula in
+    # exact / double arithmetic.  Sample counts are chosen around the points where 32-bit products of n wrap (n^2 at 65536, 9 n (n-1) at 21846).
+    big_ok = 0
+    for n in ([21846, 66000] if QUICK else [1000, 21845, 21846, 30000, 46341, 65536, 66000, 100000]):
+        m = n // 3
+        tb = tskit.TableCollection(10)
+        tb.nodes.set_columns(flags=np.array([1] * n + [0, 0], dtype=np.uint32), time=np.array([0.0] * n + [1.0, 2.0]))
+        par = np.array([n] * m + [n + 1] * (n - m) + [n + 1], dtype=np.int32)
+        chi = np.array(list(range(n)) + [n], dtype=np.int32)
+        tb.edges.set_columns(left=np.zeros(n + 1), right=np.full(n + 1, 10.0), parent=par, child=chi)
+        ps = [1, m, 2]
+        for j, (x, node) in enumerate([(1.0, 0), (4.0, n), (7.0, m)]):
+            tb.sites.add_row(x, "A")
+            tb.mutations.add_row(j, node, "T")
+        tb.sites.add_row(8.0, "A")
+        tb.mutations.add_row(3, m + 1, "T")
+        tb.sort()
+        tsb = tb.tree_sequence()
+        ps = [1, m, 1, 1]
+        from fractions import Fraction
+        T = sum(Fraction(2 * p * (n - p), n * (n - 1)) for p in ps)
+        Sg = len(ps)
+        h = sum(1.0 / i for i in range(1, n))
+        g = sum(1.0 / (i * i) for i in range(1, n))
+        aa = (n + 1) / (3 * (n - 1) * h) - 1 / h ** 2
+        bb = 2 * (n * n + n + 3) / (9 * n * (n - 1)) - (n + 2) / (h * n) + g / h ** 2
+        expD = (float(T) - Sg / h) / np.sqrt(aa * Sg + (bb / (h ** 2 + g)) * Sg * (Sg - 1))
+        chk.note_case(dict(big_n=n), True)
+        try:
+            gotT = float(tsb.diversity(span_normalise=False))
+            gotS = float(tsb.segregating_sites(span_normalise=False))
+            gotD = float(tsb.Tajimas_D())
+        except Exception as e:  # noqa: BLE001
+            chk.violation("statistics on %d samples raised %s: %s" % (n, type(e).__name__, str(e)[:80]), dict(big_n=n))
+            continue
+        bad = [nm for nm, got, exp in (("diversity", gotT, float(T)), ("segregating_sites", gotS, float(Sg)), ("Tajimas_D", gotD, expD))
+               if not abs(got - exp) <= 1e-9 * max(1.0, abs(exp))]
+        if bad:
+            chk.violation("%s on %d samples differs from its definition: got %s" % (bad, n, dict(T=gotT, S=gotS, D=gotD, expected_D=expD)), dict(big_n=n, m=m))
+        else:
+            big_ok += 1
+            chk.traces += 1
+    chk.extra["large_sample_count_cases"] = big_ok
     # binding self-test: one recorded value of one call of each kind is changed; TLC must reject exactly those
     corrupted = []
     seen_kinds = {}
